@@ -495,7 +495,7 @@ Proof.
   unfold gate_1d_op, route_opts. intros H.
   destruct (dispatch_1d c ng) eqn:E.
   - destruct tr, dg; reflexivity.
-  - destruct (H eq_refl) as [-> | ->]; destruct tr; try destruct dg; reflexivity.
+  - destruct (H eq_refl) as [-> | ->]; destruct tr; try destruct dg; try destruct nl; reflexivity.
   - destruct tr, dg; reflexivity.
 Qed.
 
@@ -536,7 +536,14 @@ Theorem split_gate_occ sw bond tn i0 i1 x :
 Proof.
   unfold occ, split_gate_labels, gate_lazy_labels, gate_labels. rewrite fresh_two.
   set (b0 := fresh_base tn [i0; i1]).
-  cbn [nth concat app]. rewrite !count_app.
+  cbn [nth].
+  change (concat ([i0; if sw then S b0 else b0; bond] :: [bond; i1; if sw then b0 else S b0]
+                  :: map (map (rename [i0; i1] [b0; S b0])) tn))
+    with ([i0; if sw then S b0 else b0; bond] ++ [bond; i1; if sw then b0 else S b0]
+          ++ concat (map (map (rename [i0; i1] [b0; S b0])) tn)).
+  change (concat (([i0; i1] ++ [b0; S b0]) :: map (map (rename [i0; i1] [b0; S b0])) tn))
+    with ([i0; i1; b0; S b0] ++ concat (map (map (rename [i0; i1] [b0; S b0])) tn)).
+  rewrite !count_app.
   set (rest := count_occ Nat.eq_dec (concat (map (map (rename [i0; i1] [b0; S b0])) tn)) x).
   destruct (Nat.eqb x bond) eqn:E; [apply Nat.eqb_eq in E | apply Nat.eqb_neq in E];
     destruct sw; cbn [count_occ];
